@@ -142,6 +142,16 @@ Definition parse_dec (s : str) : option Z :=
       else digits_val 0 s
   end.
 
+(* CPython's int <-> str digit limit (sys.get_int_max_str_digits(), 4300 by default): str(z) and int(s)
+   raise ValueError when more than 4300 digit characters are involved (the sign does not count, leading
+   zeros do).  Validated against CPython at 4299 / 4300 / 4301 digits on every run.               *)
+Definition MAX_STR_DIGITS : Z := 4300.
+Definition digit_count (s : str) : Z := Z.of_nat (List.length (filter is_digit s)).
+Definition over_limit (s : str) : bool := MAX_STR_DIGITS <? digit_count s.
+(* str(z) for an int *)
+Definition str_of_int (z : Z) : outcome str :=
+  let s := show_Z z in if over_limit s then Raise ValueErrorC else Ok s.
+
 (* ---------- numbers: exact comparison ---------------------------------------------------------- *)
 Inductive xnum : Type := XNan | XInf (neg : bool) | XFin (m e : Z).      (* m * 2^e *)
 
@@ -270,6 +280,14 @@ Definition py_eq (a b : value) : bool :=
   | _, _ => false
   end.
 
+(* the modelled part of int(str): None = not a canonical decimal (left to the oracle) *)
+Definition int_of_canonical (s : str) : option (outcome Z) :=
+  let t := num_strip s in
+  match parse_dec t with
+  | Some z => Some (if over_limit t then Raise ValueErrorC else Ok z)
+  | None => None
+  end.
+
 (* ---------- oracles -------------------------------------------------------------------------------- *)
 Record oracles : Type := {
   o_str : value -> str;                        (* str(v) where not modelled: floats, containers, objects *)
@@ -286,19 +304,21 @@ Record oracles : Type := {
 Section WithOracles.
   Variable O : oracles.
 
-  Definition py_str (v : value) : str :=
+  (* str(v): raises ValueError only for an int beyond the digit limit *)
+  Definition py_str (v : value) : outcome str :=
     match v with
-    | VNone => [78; 111; 110; 101]
-    | VBool true => [84; 114; 117; 101]
-    | VBool false => [70; 97; 108; 115; 101]
-    | VInt z => show_Z z
-    | VStr s => s
-    | _ => o_str O v
+    | VNone => Ok [78; 111; 110; 101]
+    | VBool true => Ok [84; 114; 117; 101]
+    | VBool false => Ok [70; 97; 108; 115; 101]
+    | VInt z => str_of_int z
+    | VStr s => Ok s
+    | _ => Ok (o_str O v)
     end.
   Definition py_lower (s : str) : str := if is_ascii s then map lower_c s else o_lower O s.
   Definition py_upper (s : str) : str := if is_ascii s then map upper_c s else o_upper O s.
+  (* int(s): the canonical decimals are read by the model (digit limit included), the rest by the oracle *)
   Definition py_int_of_str (s : str) : outcome Z :=
-    match parse_dec (num_strip s) with Some z => Ok z | None => o_int_of_str O s end.
+    match int_of_canonical s with Some o => o | None => o_int_of_str O s end.
 
   (* int(v) *)
   Definition py_int (v : value) : outcome Z :=
@@ -353,6 +373,15 @@ Definition in_dom (d : domkind) (v : value) : bool :=
   | DomIntFloat => match v with VBool _ | VInt _ | VFloat _ => true | _ => false end
   | DomIntFloatStr => match v with VBool _ | VInt _ | VFloat _ | VStr _ => true | _ => false end
   end.
+
+(* one branch of the if / elif chain of Min / Max:
+     [not] value <op> self._value   and   [not] self._include_boundary      (in either order) *)
+Record btest : Type := {
+  bt_op : cmpop;
+  bt_neg : bool;           (* the comparison is negated: `not value >= self._value` *)
+  bt_pol : bool;           (* the branch is taken when include_boundary has this value *)
+  bt_flag_first : bool     (* the flag is the first operand of `and`: the comparison is only evaluated when it holds *)
+}.
 
 Inductive ne_ret_kind : Type := NERetStripIfFlag | NERetStripAlways | NERetValue.
 Record notempty_shape : Type := {
